@@ -123,6 +123,35 @@ fn flat_ontology(ids: &BTreeSet<u32>) -> Ontology {
     b.calculate_information_content().expect("ic").build_minimal()
 }
 
+/// the same terms plus HP:1 and HP:118, linked so that some set members are modifier roots (children of
+/// HP:1 other than HP:118) or sit below one; built with the default category / modifier sets.
+/// The set similarity must not care: it is defined on the sets as given.
+fn modifier_ontology(ids: &BTreeSet<u32>, rng: &mut Rng) -> Ontology {
+    let mut b = Builder::new();
+    for id in ids {
+        b.new_term(&format!("t{id}"), *id);
+    }
+    let mut b = b.terms_complete();
+    b.add_parent(1u32, 118u32).expect("roots exist");
+    let others: Vec<u32> = ids.iter().copied().filter(|x| *x != 1 && *x != 118).collect();
+    for (i, c) in others.iter().enumerate() {
+        let p = match rng.below(4) {
+            0 => 1,
+            1 => 118,
+            _ => {
+                if i == 0 {
+                    1
+                } else {
+                    others[rng.below(i as u64) as usize]
+                }
+            }
+        };
+        b.add_parent(p, *c).expect("both terms exist");
+    }
+    let b = b.connect_all_terms();
+    b.calculate_information_content().expect("ic").build_with_defaults().expect("roots exist")
+}
+
 fn three<C: SimilarityCombiner + Copy, S: Similarity>(gs: [&GroupSimilarity<S, C>; 3], a: &HpoSet, b: &HpoSet) -> V {
     V::T(vec![
         res_bits(crate::catch(std::panic::AssertUnwindSafe(|| gs[0].calculate(a, b))), false),
@@ -137,8 +166,17 @@ fn case_sets(rng: &mut Rng, tier: &str) -> Case {
         let small = rng.chance(1, 2);
         crate::gen::gen_ids(rng, k, small, &[])
     };
+    let with_modifiers = rng.chance(1, 2);
+    let universe: Vec<u32> = if with_modifiers {
+        let mut u: BTreeSet<u32> = universe.into_iter().collect();
+        u.insert(1);
+        u.insert(118);
+        u.into_iter().collect()
+    } else {
+        universe
+    };
     let ids: BTreeSet<u32> = universe.iter().copied().collect();
-    let ont = flat_ontology(&ids);
+    let ont = if with_modifiers { modifier_ontology(&ids, rng) } else { flat_ontology(&ids) };
     let symmetric = rng.chance(1, 2);
     let style = rng.below(4);
     let mut table: HashMap<(u32, u32), f32> = HashMap::new();
@@ -205,6 +243,9 @@ fn case_sets(rng: &mut Rng, tier: &str) -> Case {
     let cached: Vec<V> = queries.iter().map(|(a, b)| three([&g1, &g2, &g3], &mk(a), &mk(b))).collect();
     let calls: Vec<V> = log_cached.borrow().iter().map(|(a, b)| V::T(vec![n(*a), n(*b)])).collect();
     let mut tags = vec!["sets"];
+    if with_modifiers {
+        tags.push("modifier_terms");
+    }
     if symmetric {
         tags.push("symmetric");
     } else {
